@@ -826,28 +826,28 @@ Definition wit_q : msg :=
          [XO (mk_opt 0 1232 false 0 [])].
 (* a forwarded upstream response that carries its own OPT: COOKIE, NSID, PADDING *)
 Definition wit_d : msg :=
-  mk_msg (mk_hdr 7 true 0 false false true true false false false 0) [mk_quest 0 1 1 17] [mk_rr 0 0 1 1 300 27] []
+  mk_msg (mk_hdr 7 true 0 false false true true false false false 0) [mk_quest 0 1 1 17] [mk_rr 0 0 1 1 300 27 []] []
          [XO (mk_opt 0 4096 false 0 [mk_eopt 10 24 99; mk_eopt 3 4 5; mk_eopt 12 8 1])].
 (* the same with two OPT records, the first holding ECS and an upstream keepalive *)
 Definition wit_d2 : msg :=
-  mk_msg (mk_hdr 7 true 0 false false true true false false false 0) [mk_quest 0 1 1 17] [mk_rr 0 0 1 1 300 27] []
+  mk_msg (mk_hdr 7 true 0 false false true true false false false 0) [mk_quest 0 1 1 17] [mk_rr 0 0 1 1 300 27 []] []
          [XO (mk_opt 0 4096 false 0 [mk_eopt 8 7 1172539060992; mk_eopt 11 2 600]); XO (mk_opt 0 4096 false 0 [])].
 (* EDNS version 1, a client-subnet option, a 600-byte additional record, 512 advertised *)
 Definition wit_qv : msg :=
   mk_msg (mk_hdr 9 false 0 false false true false false false false 0) [mk_quest 0 1 1 17] [] []
-         [XR (mk_rr 0 1 16 1 60 600); XO (mk_opt 1 512 false 0 [mk_eopt 8 8 312264627564736])].
+         [XR (mk_rr 0 1 16 1 60 600 []); XO (mk_opt 1 512 false 0 [mk_eopt 8 8 312264627564736])].
 
 (* The four inputs that refuted the full statements before fix fb9758c, on the repaired code: *)
 (* F5: the upstream's COOKIE / NSID / PADDING stop at the edns layer *)
 Example ex_foreign_dropped :
   serve_msg TCP wit_c wit_q false (Some wit_d) 0
-  = Some (mk_msg (mk_hdr 7 true 0 false false true true false false false 0) [mk_quest 0 1 1 17] [mk_rr 0 0 1 1 300 27] []
+  = Some (mk_msg (mk_hdr 7 true 0 false false true true false false false 0) [mk_quest 0 1 1 17] [mk_rr 0 0 1 1 300 27 []] []
                  [XO (mk_opt 0 1232 false 0 [])]).
 Proof. vm_compute. reflexivity. Qed.
 (* a second OPT (with ECS and an upstream keepalive) does not survive *)
 Example ex_second_opt_dropped :
   serve_msg TCP wit_c wit_q false (Some wit_d2) 0
-  = Some (mk_msg (mk_hdr 7 true 0 false false true true false false false 0) [mk_quest 0 1 1 17] [mk_rr 0 0 1 1 300 27] []
+  = Some (mk_msg (mk_hdr 7 true 0 false false true true false false false 0) [mk_quest 0 1 1 17] [mk_rr 0 0 1 1 300 27 []] []
                  [XO (mk_opt 0 1232 false 0 [])]).
 Proof. vm_compute. reflexivity. Qed.
 (* BADVERS: a bare OPT, whatever the query carried (forwardable ECS, a 600-byte record) *)
@@ -864,11 +864,11 @@ Proof. vm_compute. reflexivity. Qed.
    neither DO nor AD, over UDP: signatures and denial records go, AD goes, our OPT is attached *)
 Definition ex_d : msg :=
   mk_msg (mk_hdr 7 true 0 false false true true false true false 0) [mk_quest 0 1 1 17]
-         [mk_rr 0 0 1 1 300 27; mk_rr 1 0 46 1 300 90] [mk_rr 2 0 47 1 300 40] [].
+         [mk_rr 0 0 1 1 300 27 []; mk_rr 1 0 46 1 300 90 []] [mk_rr 2 0 47 1 300 40 []] [].
 Example ex_shaped :
   serve_msg UDP wit_c wit_q false (Some ex_d) 150
   = Some (mk_msg (mk_hdr 7 true 0 false false true true false false false 0) [mk_quest 0 1 1 17]
-                 [mk_rr 0 0 1 1 300 27] [] [XO (mk_opt 0 1232 false 0 [])]).
+                 [mk_rr 0 0 1 1 300 27 []] [] [XO (mk_opt 0 1232 false 0 [])]).
 Proof. vm_compute. reflexivity. Qed.
 Example ex_shaped_premises : dn_echo wit_q ex_d /\ one_opt ex_d /\ client_ver wit_q = 0 /\ client_do wit_q = false
                             /\ asked_rrsig wit_q = false /\ length (m_q wit_q) = 1%nat.
@@ -877,7 +877,7 @@ Proof. repeat split. unfold one_opt. cbn. lia. Qed.
 (* a 2000-byte answer to a client that advertised 1232: question + OPT with TC *)
 Definition ex_big : msg :=
   mk_msg (mk_hdr 7 true 0 false false true true false false false 0) [mk_quest 0 1 1 17]
-         [mk_rr 0 0 16 1 60 1000; mk_rr 1 0 16 1 60 1000] [] [].
+         [mk_rr 0 0 16 1 60 1000 []; mk_rr 1 0 16 1 60 1000 []] [] [].
 Example ex_truncated :
   serve_msg UDP wit_c wit_q false (Some ex_big) 2040
   = Some (mk_msg (mk_hdr 7 true 0 false true true true false false false 0) [mk_quest 0 1 1 17]
